@@ -1535,7 +1535,7 @@ struct Combo {
     api: usize,
 }
 
-fn any_combos(v5: bool, reduced: bool) -> Vec<Combo> {
+fn any_combos(v5: bool, reduced: bool, quick: bool) -> Vec<Combo> {
     let mut out = vec![];
     for size in [1u8, 2] {
         let mx = m::ones(size);
@@ -1543,7 +1543,13 @@ fn any_combos(v5: bool, reduced: bool) -> Vec<Combo> {
         for v in [0x10, mx - 1, mx - 3, 0] {
             a.addr(v, size);
         }
-        let bases: Vec<u64> = if reduced { vec![mx - 0x10] } else { vec![0, 0x10, mx - 0x10] };
+        let bases: Vec<u64> = if reduced {
+            vec![mx - 0x10]
+        } else if quick {
+            vec![0x10, mx - 0x10]
+        } else {
+            vec![0, 0x10, mx - 0x10]
+        };
         for base in bases {
             for api in 0..if v5 { 2 } else { 3 } {
                 // reduced set (used for the longest strings only): ranges and locations for
@@ -1623,14 +1629,15 @@ fn strings_with_prefix(b0: u8, b1: u8, maxlen: usize, f: &mut dyn FnMut(&[u8])) 
 
 /// `full_len`: strings up to this length run under every combination;
 /// longer ones (up to `maxlen`) under the reduced set.
-fn any_sub(v5: bool, full_len: usize, maxlen: usize) -> Sub {
+fn any_sub(v5: bool, full_len: usize, maxlen: usize, quick: bool) -> Sub {
     let name = format!("any-input-{}-len<={}", if v5 { "rle-lle" } else { "legacy" }, maxlen);
-    let full = any_combos(v5, false);
-    let reduced = any_combos(v5, true);
+    let full = any_combos(v5, false, quick);
+    let reduced = any_combos(v5, true, quick);
     let bound = format!(
-        "every byte string of length <= {} fed as the list section to RangeLists::ranges, LocationLists::locations{} with address size 1 and 2 x unit base {{0, 0x10, max-0x10}}, a 4-entry .debug_addr {{0x10, max-1, max-3, 0}} ({} combinations per string){}: every yielded range has begin < end and begin < 2^(8*size)-2, no panic, the iterator ends within len+2 calls (errors do not stop the driver)",
+        "every byte string of length <= {} fed as the list section to RangeLists::ranges, LocationLists::locations{} with address size 1 and 2 x unit base {}, a 4-entry .debug_addr {{0x10, max-1, max-3, 0}} ({} combinations per string){}: every yielded range has begin < end and begin < 2^(8*size)-2, no panic, the iterator ends within len+2 calls (errors do not stop the driver)",
         full_len,
         if v5 { "" } else { " and locations_dwo (GNU LLE)" },
+        if quick { "{0x10, max-0x10}" } else { "{0, 0x10, max-0x10}" },
         full.len(),
         if maxlen > full_len { format!("; every byte string of length {} under {} combinations (ranges and locations with address size 1, ranges with address size 2, unit base max-0x10)", maxlen, reduced.len()) } else { String::new() }
     );
@@ -1695,8 +1702,8 @@ pub fn def(tier: Tier) -> CheckDef {
     subs.push(plumb_sub(false, tier.pick(2, 3), quick));
     subs.push(plumb_sub(true, tier.pick(2, 3), quick));
     subs.push(die_sub());
-    subs.push(any_sub(false, 3, tier.pick(3, 4)));
-    subs.push(any_sub(true, 3, 3));
+    subs.push(any_sub(false, 3, tier.pick(3, 4), quick));
+    subs.push(any_sub(true, 3, 3, quick));
     let mut req: Vec<String> = vec![];
     for fam in [Fam::Ranges, Fam::Loc] {
         for k in ["legacy_pair", "legacy_base", "early-terminator"] {
